@@ -6,7 +6,8 @@
    D. C05  framing of PLI / RRR / NACK / SLI / FIR for EVERY value Marshal accepts (no domain hypothesis). *)
 From RTCP Require Import Proofs.Tactics Proofs.HeaderProofs Lib.Reflect Gen.Layouts
   Model.Header Model.Reports Model.Sdes Model.ByeApp Model.Feedback Model.Twcc Model.Ccfb Model.Remb Model.Xr Model.Packet
-  Proofs.Total1 Proofs.Total2 Proofs.Total3 Proofs.Dgram.
+  Spec.Enc Spec.XrSpec Spec.Laws Lib.Sval Check.Ops
+  Proofs.EncXr Proofs.XrRead Proofs.Image3 Proofs.Misc Proofs.PacketLevel Proofs.Total1 Proofs.Total2 Proofs.Total3 Proofs.Dgram.
 Local Open Scope N_scope.
 
 (* ================================================================================================ *)
@@ -191,6 +192,175 @@ Proof.
   intros E; inversion E; subst x; clear E. cbn [xr_blocks]. lia.
 Qed.
 
+(* ---- A.3b the number of nodes of the decoded block values ---- *)
+(* [vnodes v] counts every node of the value tree (scalars, slice headers, structs): this is what the
+   reflection reader allocates.  It is bounded by the wire size of the value plus a constant per block. *)
+Fixpoint vnodes (v : val) : N :=
+  match v with
+  | VU _ => 1
+  | VSlice l => 1 + fold_right (fun x acc => vnodes x + acc) 0 l
+  | VStruct l => 1 + fold_right (fun x acc => vnodes x + acc) 0 l
+  end.
+Definition nodes_list (l : list val) : N := fold_right (fun x acc => vnodes x + acc) 0 l.
+Lemma vnodes_pos v : 1 <= vnodes v.
+Proof. destruct v; cbn [vnodes]; lia. Qed.
+
+(* [nb t c]: a value read as a [t] has at most c + wire_size nodes *)
+Definition nb (t : ty) (c : N) : Prop := forall b v r, read t b = Ok (v, r) -> vnodes v <= c + wire_size t v.
+
+Lemma nb_scalar t : is_scalar t -> nb t 0.
+Proof.
+  intros [ -> | [ -> | [ -> | -> ]]] b v r; cbn [read scalar_size];
+    (match goal with |- context [if ?a <? ?c then _ else _] => destruct (N.ltb_spec a c) as [|Hl] end; [discriminate|]);
+    match goal with |- Ok (_, skipn ?k b) = _ -> _ => set (s := skipn k b) in *; clearbody s end;
+    intros [= <- <-]; cbn [vnodes wire_size mem_size scalar_size]; lia.
+Qed.
+Lemma nb_DLRRReport : nb ly_DLRRReport 0.
+Proof.
+  intros b v r H. change ly_DLRRReport with rfc_DLRRReport in *.
+  apply dlrr_report_inv in H as [(x & -> & _) _]. destruct x as [[a0 b0] c0]. cbn. lia.
+Qed.
+Lemma read_slice_nb e : nb e 0 -> forall fuel b v r, read_slice e fuel b = Ok (v, r) ->
+  vnodes v <= 1 + wire_size (TSlice e) v.
+Proof.
+  intros He. induction fuel as [|f IH]; intros b v r; [discriminate|]. rewrite read_slice_S.
+  destruct b as [|x0 b'].
+  { intros E; inversion E; subst. cbn. lia. }
+  destruct (read e (x0 :: b')) as [[x rest]| | |] eqn:Er; cbn [bind]; try discriminate.
+  apply He in Er.
+  destruct (read_slice e f rest) as [[xs rest']| | |] eqn:El; cbn [bind]; try discriminate.
+  apply IH in El. destruct xs as [|l|]; try discriminate.
+  intros E; inversion E; subst v r; clear E.
+  rewrite wire_TSlice in *. cbn [vnodes fold_right] in *. lia.
+Qed.
+Lemma nb_slice e : nb e 0 -> nb (TSlice e) 1.
+Proof. intros He b v r. rewrite read_TSlice. apply read_slice_nb. exact He. Qed.
+
+Definition slack_field (f : field) : N :=
+  match f with
+  | Field _ ft om ex =>
+      if om then vnodes (zero_of ft)
+      else if ex then match ft with TSlice _ | TStruct _ => 1 | _ => 0 end
+      else vnodes (zero_of ft)
+  end.
+Definition slack_fields (fs : list field) : N := fold_right (fun f acc => slack_field f + acc) 0 fs.
+Definition field_nb (f : field) : Prop :=
+  match f with Field _ ft om ex => om = true \/ ex = false \/ nb ft (slack_field f) end.
+Lemma read_fields_nb fs : Forall field_nb fs -> forall b vs r, read_fields fs b = Ok (vs, r) ->
+  nodes_list vs <= slack_fields fs + wire_fields vs fs.
+Proof.
+  induction 1 as [|[n ft om ex] fs Hf Hfs IH]; intros b vs r; cbn [read_fields].
+  { intros E; inversion E; subst. cbn. lia. }
+  unfold slack_fields. cbn [fold_right]. fold (slack_fields fs).
+  destruct om.
+  { destruct (read_fields fs b) as [[vs1 rest]| | |] eqn:E1; cbn [bind]; try discriminate.
+    intros E; inversion E; subst vs r; clear E. rewrite wire_fields_cons. apply IH in E1.
+    unfold nodes_list in *. cbn [fold_right slack_field]. lia. }
+  destruct ex.
+  - destruct Hf as [Hf|[Hf|Hf]]; try discriminate.
+    destruct (read ft b) as [[x rest]| | |] eqn:Ex; cbn [bind]; try discriminate.
+    apply Hf in Ex.
+    destruct (read_fields fs rest) as [[vs1 rest']| | |] eqn:E1; cbn [bind]; try discriminate.
+    intros E; inversion E; subst vs r; clear E. rewrite wire_fields_cons. apply IH in E1.
+    unfold nodes_list in *. cbn [fold_right]. lia.
+  - cbn zeta. destruct (N.ltb_spec (len b) (mem_size ft)) as [|Hl]; [discriminate|].
+    destruct (read_fields fs _) as [[vs1 rest']| | |] eqn:E1; cbn [bind]; try discriminate.
+    intros E; inversion E; subst vs r; clear E. rewrite wire_fields_cons. apply IH in E1.
+    unfold nodes_list in *. cbn [fold_right slack_field]. lia.
+Qed.
+Lemma nb_struct fs c : Forall field_nb fs -> 1 + slack_fields fs <= c -> nb (TStruct fs) c.
+Proof.
+  intros H Hc b v r. rewrite read_TStruct.
+  destruct (read_fields fs b) as [[vs rest]| | |] eqn:E1; cbn [bind]; try discriminate.
+  intros E; inversion E; subst v r; clear E. rewrite wire_TStruct.
+  pose proof (read_fields_nb fs H _ _ _ E1) as B. unfold nodes_list in B. cbn [vnodes]. lia.
+Qed.
+
+Ltac fields_nb :=
+  repeat first
+    [ apply Forall_nil
+    | apply Forall_cons; [cbn [field_nb]; first [left; reflexivity | right; left; reflexivity | right; right] |] ].
+Lemma nb_XRHeader : nb ly_XRHeader 1.
+Proof. apply nb_struct; [fields_nb; apply nb_scalar; is_sc|vm_compute; discriminate]. Qed.
+Ltac nb_ty :=
+  cbn [slack_field];
+  first
+    [ apply nb_scalar; is_sc
+    | exact nb_XRHeader
+    | apply nb_slice; first [apply nb_scalar; is_sc | exact nb_DLRRReport] ].
+(* at most 6 nodes per block are not backed by wire octets: the struct itself, the XRHeader struct, the slice
+   header and the (at most four) members filled in from the type-specific octet *)
+Lemma nb_layout k : nb (layout_of k) 6.
+Proof. destruct k; cbn [layout_of]; (apply nb_struct; [fields_nb; nb_ty|vm_compute; discriminate]). Qed.
+
+(* unpackBlockHeader overwrites scalar members with scalars: the node count does not grow *)
+Lemma nodes_set_nth_VU : forall i vs n, nodes_list (set_nth i (VU n) vs) <= nodes_list vs.
+Proof.
+  induction i as [|i IH]; intros [|y vs] n; cbn [set_nth]; try lia; unfold nodes_list in *; cbn [fold_right vnodes].
+  - pose proof (vnodes_pos y). lia.
+  - specialize (IH vs n). lia.
+Qed.
+Lemma vnodes_set_field_VU t v name n : vnodes (set_field t v name (VU n)) <= vnodes v.
+Proof.
+  unfold set_field. destruct t; try lia. destruct v; try lia. destruct (field_index name fs); [|lia].
+  cbn [vnodes]. pose proof (nodes_set_nth_VU n0 vs n) as B. unfold nodes_list in B. lia.
+Qed.
+Lemma blk_set_VU_nodes b name n : vnodes (xb_val (blk_set b name (VU n))) <= vnodes (xb_val b).
+Proof. unfold blk_set. cbn [xb_val]. apply vnodes_set_field_VU. Qed.
+Lemma unpack_block_nodes k v : vnodes (xb_val (unpack_block (mkXRBlock k v))) <= vnodes v.
+Proof.
+  unfold unpack_block. cbn [xb_kind]. destruct k; try (cbn [xb_val]; lia).
+  1-3: apply (blk_set_VU_nodes (mkXRBlock _ v)).
+  repeat (eapply N.le_trans; [apply blk_set_VU_nodes|]). cbn [xb_val]. lia.
+Qed.
+
+Definition blocks_nodes (bs : list XRBlock) : N := fold_right (fun b acc => vnodes (xb_val b) + acc) 0 bs.
+
+Lemma if_ltb_ge1 a x : 1 <= a -> 1 <= (if a <? (x + 1) * 4 then a else (x + 1) * 4).
+Proof. intros H. destruct (N.ltb_spec a ((x + 1) * 4)); lia. Qed.
+Lemma xr_blocks_loop_nodes : forall fuel buf bs, xr_blocks_loop fuel buf = Ok bs ->
+  nlen bs <= len buf /\ blocks_nodes bs <= 6 * nlen bs + blocks_wire bs.
+Proof.
+  induction fuel as [|f IH]; intros buf bs; [discriminate|]. cbn [xr_blocks_loop].
+  destruct buf as [|x0 buf'].
+  { intros E; inversion E; subst. cbn. lia. }
+  cbv iota. assert (Hne : 1 <= len (x0 :: buf')) by (rewrite len_cons; lia).
+  set (buf := x0 :: buf') in *. clearbody buf.
+  destruct (read ly_XRHeader buf) as [[hv r0]| | |]; cbn [bind]; try discriminate.
+  set (size := if _ <? _ then _ else _).
+  assert (Hsize : size <= len buf) by apply if_ltb_le.
+  assert (Hsize1 : 1 <= size).
+  { apply if_ltb_ge1. exact Hne. }
+  clearbody size. set (k := kind_of_block_type _). clearbody k.
+  destruct (read (layout_of _) (firstn (N.to_nat size) buf)) as [[v r1]| | |] eqn:Ev; cbn [bind]; try discriminate.
+  apply nb_layout in Ev.
+  destruct (xr_blocks_loop f (skipn (N.to_nat size) buf)) as [r| | |] eqn:El; cbn [bind]; try discriminate.
+  apply IH in El as [I1 I2]. rewrite len_skipn, N2Nat.id in I1.
+  intros E; inversion E; subst bs; clear E. rewrite nlen_cons.
+  unfold blocks_wire, blocks_nodes in *. cbn [fold_right].
+  rewrite unpack_block_wire. pose proof (unpack_block_nodes k v). lia.
+Qed.
+
+(* the value trees of all blocks of a decoded ExtendedReport have at most 7 nodes per input octet; and the
+   wire-size measure used by [elems] below dominates the node count up to 6 nodes per block *)
+Theorem XR_unmarshal_nodes b x : XR_unmarshal b = Ok x ->
+  8 + nlen (xr_blocks x) <= len b /\
+  blocks_nodes (xr_blocks x) <= 6 * nlen (xr_blocks x) + blocks_wire (xr_blocks x) /\
+  blocks_nodes (xr_blocks x) <= 7 * len b.
+Proof.
+  intros H. pose proof (XR_unmarshal_alloc b x H) as A. revert H. unfold XR_unmarshal.
+  destruct (Header_unmarshal b) as [h| | |] eqn:Eh; cbn [bind]; try discriminate.
+  apply Header_unmarshal_ok in Eh as [Hl _].
+  destruct (negb _); [discriminate|].
+  unfold c_headerLength. rewrite slice_from_ok by lia. cbn [bind].
+  destruct (read TU32 (skipn (N.to_nat 4) b)) as [[sv rest]| | |] eqn:Es; cbn [bind]; try discriminate.
+  apply (exact_scalar TU32 ltac:(is_sc)) in Es. rewrite len_skipn in Es.
+  assert (Es' : wire_size TU32 sv = 4) by (clear Es; destruct sv; reflexivity).
+  destruct (xr_blocks_loop _ rest) as [blocks| | |] eqn:El; cbn [bind]; try discriminate.
+  apply xr_blocks_loop_nodes in El as [N1 N2].
+  intros E; inversion E; subst x; clear E. cbn [xr_blocks] in *. lia.
+Qed.
+
 (* ---- A.4 the element count of a decoded packet ---- *)
 
 (* list elements and octets of the variable-size parts a packet value holds (the fixed-size struct itself is
@@ -238,7 +408,6 @@ Proof.
   - apply FIR_unmarshal_alloc in E. lia.
   - apply XR_unmarshal_alloc in E. lia.
   - lia.
-  - discriminate.
 Qed.
 
 (* TransportLayerCC: the chunks fit the input, the deltas exceed the 16-bit status count by at most 13 *)
@@ -300,3 +469,338 @@ Proof. intros H. apply Unmarshal_alloc_sharp in H. unfold elems_list, nlen in H.
 Corollary Unmarshal_alloc_linear b ps : Unmarshal b = Ok ps ->
   fold_right (fun p acc => elems p + acc) 0 ps <= 16388 * len b.
 Proof. intros H. apply Unmarshal_alloc_sharp in H. unfold elems_list, nlen in H. lia. Qed.
+
+(* ================================================================================================ *)
+(* B. C10: DestinationSSRC survives the round trip                                                   *)
+(* ================================================================================================ *)
+
+(* the documented quantisations (RR profile extension padded, REMB bitrate rounded) do not touch the
+   DestinationSSRC list *)
+Theorem dest_q : forall p, dest_packet (q p) = dest_packet p.
+Proof.
+  apply packet_ind'.
+  - intros p Hp. destruct p; try reflexivity; try discriminate Hp.
+    cbn [q dest_packet]. unfold q_REMB.
+    destruct (remb_floor (remb_bitrate x)) as [v|]; [|reflexivity].
+    destruct (remb_ref v) as [e m]. reflexivity.
+  - intros l Hl. cbn [q]. destruct Hl as [|p r Hp Hr]; [reflexivity|].
+    cbn [map dest_packet]. exact Hp.
+Qed.
+
+Theorem dest_roundtrip : forall p, supported p = true -> in_D p = true ->
+  exists b p', marshal_packet p = Ok b /\ decode_as (tag_of_packet p) b = Ok p' /\ dest_packet p' = dest_packet p.
+Proof.
+  intros p Hs HD. destruct (marshal_then_unmarshal p Hs HD) as (b & Hm & Hu).
+  exists b, (q p). split; [exact Hm|]. split; [exact Hu|]. apply dest_q.
+Qed.
+
+(* the same through the datagram entry point *)
+Theorem dest_roundtrip_datagram : forall p, supported p = true -> in_D p = true -> len (enc_spec p) < 262144 ->
+  exists b p', marshal_packet p = Ok b /\ Unmarshal b = Ok [p'] /\ dest_packet p' = dest_packet p.
+Proof.
+  intros p Hs HD Hl. exists (enc_spec p), (q p). split; [apply marshal_is_rfc; assumption|].
+  split; [apply datagram_roundtrip; assumption|apply dest_q].
+Qed.
+
+(* ExtendedReport (well-formed blocks): the decoded value equals the original up to the XRHeader bookkeeping,
+   which DestinationSSRC does not read *)
+Theorem XR_dest_roundtrip : forall x, D_XR x = true -> Forall wf_block (xr_blocks x) -> len (enc_XR x) < 262144 ->
+  exists b x', marshal_packet (PXR x) = Ok b /\ decode_as TXR b = Ok (PXR x') /\ Unmarshal b = Ok [PXR x'] /\
+               dest_packet (PXR x') = dest_packet (PXR x).
+Proof.
+  intros x HD Hwf Hl.
+  destruct (XR_roundtrip_canon x HD Hwf Hl) as (x' & Hu & Hc & _ & _ & _ & _ & HU).
+  exists (enc_XR x), x'. split; [cbn [marshal_packet]; apply XR_marshal_spec; exact Hwf|].
+  split; [cbn [decode_as]; rewrite Hu; reflexivity|]. split; [exact HU|].
+  rewrite <- (dest_canon (PXR x')), Hc. apply dest_canon.
+Qed.
+
+(* ================================================================================================ *)
+(* C. C16: the XR RLE chunk accessors (extended_report.go: Chunk.Type, Chunk.RunType, Chunk.Value)    *)
+(* ================================================================================================ *)
+
+(* func (c Chunk) Type() ChunkType *)
+Definition chunk_type (c : N) : N := if c =? 0 then c_TerminatingNullChunkType else c / 32768.
+(* func (c Chunk) RunType() (uint, error) *)
+Definition chunk_run_type (c : N) : res N :=
+  if chunk_type c =? c_RunLengthChunkType then Ok (N.land (c / 16384) 1) else Err.
+(* func (c Chunk) Value() uint *)
+Definition chunk_value (c : N) : N :=
+  if chunk_type c =? c_RunLengthChunkType then N.land c 16383
+  else if chunk_type c =? c_BitVectorChunkType then N.land c 32767
+  else if chunk_type c =? c_TerminatingNullChunkType then 0 else c.
+
+(* these are the functions the harness compares with the implementation (op "xrchunk") *)
+Theorem xrchunk_obs_accessors c :
+  xrchunk_obs c = SL [SN (chunk_type c); sres SN (chunk_run_type c); SN (chunk_value c)].
+Proof.
+  unfold xrchunk_obs, chunk_run_type, chunk_value. fold (chunk_type c).
+  destruct (chunk_type c =? c_RunLengthChunkType); reflexivity.
+Qed.
+
+(* the decomposition, as a decidable check on one chunk value *)
+Definition chunk_chk (c : N) : bool :=
+  let ty := chunk_type c in
+  let v := chunk_value c in
+  if c =? 0 then (ty =? 2) && (v =? 0) && is_err (chunk_run_type c)
+  else
+    (ty =? c / 32768) && (ty <? 2) &&
+    (if ty =? 0 then
+       match chunk_run_type c with
+       | Ok rt => (rt <? 2) && (v <? 16384) && (c =? rt * 16384 + v)
+       | _ => false
+       end
+     else (ty =? 1) && is_err (chunk_run_type c) && (v <? 32768) && (c =? 32768 + v)).
+
+(* complete enumeration of the 65536 values of a uint16 *)
+Lemma chunk_chk_all : forallb chunk_chk (nrange (N.to_nat 65536) 0) = true.
+Proof. vm_compute. reflexivity. Qed.
+Lemma chunk_chk_ok c : c < 65536 -> chunk_chk c = true.
+Proof.
+  intros H. pose proof chunk_chk_all as A. rewrite forallb_forall in A. apply A. apply In_nrange.
+  rewrite N2Nat.id. lia.
+Qed.
+
+(* a chunk is the terminating null iff it is 0 *)
+Theorem chunk_null_iff c : c < 65536 -> (chunk_type c = c_TerminatingNullChunkType <-> c = 0).
+Proof.
+  intros H. unfold chunk_type. consts.
+  destruct (N.eqb_spec c 0) as [->|Hc]; [split; reflexivity|].
+  split; [|contradiction]. intros E. exfalso. assert (c / 32768 < 2) by lia. lia.
+Qed.
+Theorem chunk_null c : c = 0 -> chunk_type c = 2 /\ chunk_run_type c = Err /\ chunk_value c = 0.
+Proof. intros ->. repeat split. Qed.
+
+(* otherwise the type is bit 15 *)
+Theorem chunk_type_bit15 c : c < 65536 -> c <> 0 ->
+  chunk_type c = c / 32768 /\ (chunk_type c = c_RunLengthChunkType \/ chunk_type c = c_BitVectorChunkType).
+Proof.
+  intros H Hc. unfold chunk_type. destruct (N.eqb_spec c 0); [contradiction|]. consts. split; [reflexivity|].
+  assert (c / 32768 < 2) by lia. lia.
+Qed.
+
+(* run-length chunk: c = run_type * 2^14 + value, value < 2^14 *)
+Theorem chunk_run_length c : c < 65536 -> chunk_type c = c_RunLengthChunkType ->
+  exists rt, chunk_run_type c = Ok rt /\ rt < 2 /\ chunk_value c < 16384 /\ c = rt * 16384 + chunk_value c.
+Proof.
+  intros H Ht. pose proof (chunk_chk_ok c H) as K. unfold chunk_chk in K. consts. rewrite Ht in K.
+  destruct (N.eqb_spec c 0) as [->|Hc]; [discriminate K|].
+  change (0 =? 0) with true in K. cbv iota in K.
+  destruct (chunk_run_type c) as [rt| | |]; try (rewrite andb_false_r in K; discriminate K).
+  exists rt. split; [reflexivity|].
+  repeat (apply andb_true_iff in K; destruct K as [K ?]). lia.
+Qed.
+
+(* bit-vector chunk: c = 2^15 + value, value < 2^15, RunType reports an error *)
+Theorem chunk_bit_vector c : c < 65536 -> chunk_type c = c_BitVectorChunkType ->
+  chunk_run_type c = Err /\ chunk_value c < 32768 /\ c = 32768 + chunk_value c.
+Proof.
+  intros H Ht. pose proof (chunk_chk_ok c H) as K. unfold chunk_chk in K. consts. rewrite Ht in K.
+  destruct (N.eqb_spec c 0) as [->|Hc]; [discriminate K|].
+  change (1 =? 0) with false in K. cbv iota in K.
+  repeat (apply andb_true_iff in K; destruct K as [K ?]).
+  split; [|lia]. destruct (chunk_run_type c); try discriminate; reflexivity.
+Qed.
+
+(* hence the three accessors determine the chunk: the decomposition is unique *)
+Theorem chunk_accessors_injective c d : c < 65536 -> d < 65536 ->
+  chunk_type c = chunk_type d -> chunk_run_type c = chunk_run_type d -> chunk_value c = chunk_value d -> c = d.
+Proof.
+  intros Hc Hd Et Er Ev.
+  destruct (N.eq_dec c 0) as [->|Nc].
+  { symmetry. apply (chunk_null_iff d Hd). rewrite <- Et. reflexivity. }
+  destruct (N.eq_dec d 0) as [->|Nd].
+  { apply (chunk_null_iff c Hc). rewrite Et. reflexivity. }
+  destruct (chunk_type_bit15 c Hc Nc) as [_ [T|T]].
+  - destruct (chunk_run_length c Hc T) as (r1 & R1 & _ & _ & D1).
+    rewrite Et in T. destruct (chunk_run_length d Hd T) as (r2 & R2 & _ & _ & D2).
+    rewrite R1, R2 in Er. injection Er as Er. lia.
+  - destruct (chunk_bit_vector c Hc T) as (_ & _ & D1).
+    rewrite Et in T. destruct (chunk_bit_vector d Hd T) as (_ & _ & D2). lia.
+Qed.
+
+(* ================================================================================================ *)
+(* D. C05: framing of the feedback packets for EVERY value Marshal accepts                           *)
+(* ================================================================================================ *)
+(* No domain hypothesis: SSRCs, packet ids, bitmasks, SLI fields and FIR sequence numbers of any size are
+   truncated by the big-endian writers, so the shape of the output does not depend on them.  The length
+   field is the 16-bit truncation of size/4 - 1 (FIR accepts any number of entries, so it can wrap). *)
+
+Lemma len_concat_k {A} (f : A -> bytes) k (l : list A) :
+  (forall x, len (f x) = k) -> len (List.concat (map f l)) = k * nlen l.
+Proof.
+  intros Hf. induction l as [|x l IH]; [cbn [map List.concat]; unfold nlen, len; cbn [List.length N.of_nat]; lia|].
+  cbn [map List.concat]. rewrite len_app, Hf, IH, nlen_cons. lia.
+Qed.
+
+Lemma hdr_body_framing c t l body b : c < 32 -> t < 256 -> l < 65536 ->
+  (let* h := Header_marshal (mkHeader false c t l) in Ok (h ++ body)) = Ok b ->
+  len b = 4 + len body /\ Header_unmarshal b = Ok (mkHeader false c t l).
+Proof.
+  intros Hc Ht Hl H. rewrite Header_marshal_spec in H by exact Hc. cbn [bind] in H.
+  assert (E : b = hdr false c t l ++ body) by congruence. subst b. clear H.
+  split; [rewrite len_app; reflexivity|]. apply Header_unmarshal_hdr; assumption.
+Qed.
+
+Lemma u16_lt' x : u16 x < 65536.
+Proof. unfold u16. lia. Qed.
+
+(* PLI and RRR: Marshal never fails and writes the 12-octet RFC frame whatever the SSRC values *)
+Lemma PLI_marshal_any p : PLI_marshal p = Ok (hdr false 1 206 2 ++ be 4 (pli_sender p) ++ be 4 (pli_media p)).
+Proof.
+  unfold PLI_marshal, PLI_size, PLI_header. consts.
+  change (zeros (4 + 4 * 2)) with (zeros 4 ++ zeros 8).
+  frontier.
+  rewrite Header_marshal_spec by lia. cbn [bind].
+  rewrite <- !app_assoc. rewrite copy_at_head' by reflexivity.
+  change (zeros (8 - N.of_nat 4 - N.of_nat 4)) with (@nil byte). rewrite app_nil_r. reflexivity.
+Qed.
+Lemma RRR_marshal_any p : RRR_marshal p = Ok (hdr false 5 205 2 ++ be 4 (rrr_sender p) ++ be 4 (rrr_media p)).
+Proof.
+  unfold RRR_marshal, RRR_size, RRR_header. consts.
+  change (zeros (4 + 8)) with (zeros 4 ++ zeros 8).
+  frontier.
+  rewrite Header_marshal_spec by lia. cbn [bind].
+  rewrite <- !app_assoc. rewrite copy_at_head' by reflexivity.
+  change (zeros (8 - N.of_nat 4 - N.of_nat 4)) with (@nil byte). rewrite app_nil_r. reflexivity.
+Qed.
+
+Theorem PLI_framing_any_value p b : PLI_marshal p = Ok b ->
+  len b = PLI_size p /\ len b mod 4 = 0 /\ Header_unmarshal b = Ok (PLI_header p).
+Proof.
+  rewrite PLI_marshal_any. intros H.
+  assert (E : b = hdr false 1 206 2 ++ be 4 (pli_sender p) ++ be 4 (pli_media p)) by congruence. subst b. clear H.
+  assert (L : len (hdr false 1 206 2 ++ be 4 (pli_sender p) ++ be 4 (pli_media p)) = 12)
+    by (rewrite !len_app, !len_be; reflexivity).
+  rewrite L. split; [reflexivity|]. split; [reflexivity|].
+  unfold PLI_header. consts. apply Header_unmarshal_hdr; lia.
+Qed.
+Theorem RRR_framing_any_value p b : RRR_marshal p = Ok b ->
+  len b = RRR_size p /\ len b mod 4 = 0 /\ Header_unmarshal b = Ok (RRR_header p).
+Proof.
+  rewrite RRR_marshal_any. intros H.
+  assert (E : b = hdr false 5 205 2 ++ be 4 (rrr_sender p) ++ be 4 (rrr_media p)) by congruence. subst b. clear H.
+  assert (L : len (hdr false 5 205 2 ++ be 4 (rrr_sender p) ++ be 4 (rrr_media p)) = 12)
+    by (rewrite !len_app, !len_be; reflexivity).
+  rewrite L. split; [reflexivity|]. split; [reflexivity|].
+  unfold RRR_header. consts. apply Header_unmarshal_hdr; lia.
+Qed.
+
+Theorem NACK_framing_any_value p b : NACK_marshal p = Ok b ->
+  len b = NACK_size p /\ len b mod 4 = 0 /\ Header_unmarshal b = Ok (NACK_header p).
+Proof.
+  unfold NACK_marshal. destruct (255 <? _); [discriminate|]. cbv zeta. unfold NACK_header. consts.
+  intros H. apply hdr_body_framing in H; try lia; try apply u16_lt'. destruct H as [L Hh].
+  rewrite !len_app, !len_be in L.
+  rewrite (len_concat_k (fun q0 => be 2 (np_id q0) ++ be 2 (np_bm q0)) 4) in L
+    by (intros x; rewrite len_app, !len_be; reflexivity).
+  change (N.of_nat 4) with 4 in L.
+  assert (E : len b = NACK_size p) by (unfold NACK_size; consts; lia).
+  split; [exact E|]. split; [unfold NACK_size in E; consts; lia|]. exact Hh.
+Qed.
+
+Theorem SLI_framing_any_value p b : SLI_marshal p = Ok b ->
+  len b = SLI_size p /\ len b mod 4 = 0 /\ Header_unmarshal b = Ok (SLI_header p).
+Proof.
+  unfold SLI_marshal. destruct (255 <? _); [discriminate|]. cbv zeta. unfold SLI_header. consts.
+  intros H. apply hdr_body_framing in H; try lia; try apply u16_lt'. destruct H as [L Hh].
+  rewrite !len_app, !len_be in L.
+  rewrite (len_concat_k (fun e => be 4 (sli_word e)) 4) in L by (intros x; rewrite len_be; reflexivity).
+  change (N.of_nat 4) with 4 in L.
+  assert (E : len b = SLI_size p) by (unfold SLI_size; consts; lia).
+  split; [exact E|]. split; [unfold SLI_size in E; consts; lia|]. exact Hh.
+Qed.
+
+(* FIR: no limit on the number of entries *)
+Theorem FIR_framing_any_value p b : FIR_marshal p = Ok b ->
+  len b = FIR_size p /\ len b mod 4 = 0 /\ Header_unmarshal b = Ok (FIR_header p).
+Proof.
+  unfold FIR_marshal. cbv zeta. unfold FIR_header. consts.
+  intros H. apply hdr_body_framing in H; try lia; try apply u16_lt'. destruct H as [L Hh].
+  rewrite !len_app, !len_be in L.
+  rewrite (len_concat_k (fun e => be 4 (fir_ssrc e) ++ [n2b (fir_seq e); x00; x00; x00]) 8) in L
+    by (intros x; rewrite len_app, len_be; reflexivity).
+  change (N.of_nat 4) with 4 in L.
+  assert (E : len b = FIR_size p) by (unfold FIR_size; consts; lia).
+  split; [exact E|]. split; [unfold FIR_size in E; consts; lia|]. exact Hh.
+Qed.
+
+(* the five headers, spelled out: no padding, the type's FMT and packet type, and the length field
+   u16 (len b / 4 - 1) *)
+Definition framing_u16 (b : bytes) (pt fmt : N) : Prop :=
+  len b mod 4 = 0 /\
+  exists h, Header_unmarshal b = Ok h /\ h_pad h = false /\ h_type h = pt /\ h_count h = fmt /\ h_len h = u16 (len b / 4 - 1).
+
+Corollary feedback_framing_any_value :
+  (forall p b, PLI_marshal p = Ok b -> len b = 12 /\ framing_u16 b 206 1) /\
+  (forall p b, RRR_marshal p = Ok b -> len b = 12 /\ framing_u16 b 205 5) /\
+  (forall p b, NACK_marshal p = Ok b -> len b = 12 + 4 * nlen (nack_pairs p) /\ nlen (nack_pairs p) <= 253 /\ framing_u16 b 205 1) /\
+  (forall p b, SLI_marshal p = Ok b -> len b = 12 + 4 * nlen (sli_entries p) /\ nlen (sli_entries p) <= 253 /\
+                                        framing_u16 b c_TypeTransportSpecificFeedback c_FormatSLI) /\
+  (forall p b, FIR_marshal p = Ok b -> len b = 12 + 8 * nlen (fir_entries p) /\ framing_u16 b 206 4).
+Proof.
+  repeat split.
+  - apply PLI_framing_any_value in H. tauto.
+  - apply PLI_framing_any_value in H. tauto.
+  - apply PLI_framing_any_value in H as (L & M & Hh). eexists. split; [exact Hh|]. rewrite L. repeat split.
+  - apply RRR_framing_any_value in H. tauto.
+  - apply RRR_framing_any_value in H. tauto.
+  - apply RRR_framing_any_value in H as (L & M & Hh). eexists. split; [exact Hh|]. rewrite L. repeat split.
+  - apply NACK_framing_any_value in H as (L & _). rewrite L. unfold NACK_size. consts. lia.
+  - unfold NACK_marshal in H. consts. destruct (N.ltb_spec 255 (nlen (nack_pairs p) + 2)); [discriminate|lia].
+  - apply NACK_framing_any_value in H. tauto.
+  - apply NACK_framing_any_value in H as (L & M & Hh). eexists. split; [exact Hh|]. rewrite L. repeat split.
+  - apply SLI_framing_any_value in H as (L & _). rewrite L. unfold SLI_size. consts. lia.
+  - unfold SLI_marshal in H. consts. destruct (N.ltb_spec 255 (nlen (sli_entries p) + 2)); [discriminate|lia].
+  - apply SLI_framing_any_value in H. tauto.
+  - apply SLI_framing_any_value in H as (L & M & Hh). eexists. split; [exact Hh|]. rewrite L. repeat split.
+  - apply FIR_framing_any_value in H as (L & _). rewrite L. unfold FIR_size. consts. lia.
+  - apply FIR_framing_any_value in H. tauto.
+  - apply FIR_framing_any_value in H as (L & M & Hh). eexists. split; [exact Hh|]. rewrite L. repeat split.
+Qed.
+
+(* the length field does wrap: a FullIntraRequest with 32768 entries is accepted and announces 2 words *)
+Lemma FIR_length_wraps : exists p b, FIR_marshal p = Ok b /\ len b = 262156 /\
+  exists h, Header_unmarshal b = Ok h /\ h_len h = 2.
+Proof.
+  exists (mkFIR 0 0 (repeat (mkFIREntry 0 0) (N.to_nat 32768))).
+  destruct (FIR_marshal (mkFIR 0 0 (repeat (mkFIREntry 0 0) (N.to_nat 32768)))) as [b| | |] eqn:E.
+  2-4: (exfalso; revert E; unfold FIR_marshal, FIR_header; cbv zeta; rewrite Header_marshal_spec by (consts; lia); discriminate).
+  exists b. apply FIR_framing_any_value in E as (L & _ & Hh).
+  assert (N : nlen (fir_entries (mkFIR 0 0 (repeat (mkFIREntry 0 0) (N.to_nat 32768)))) = 32768).
+  { cbn [fir_entries]. unfold nlen. rewrite repeat_length, N2Nat.id. reflexivity. }
+  unfold FIR_size in L. unfold FIR_header, FIR_size in Hh. rewrite N in L, Hh. consts.
+  split; [reflexivity|]. split; [exact L|]. eexists. split; [exact Hh|]. reflexivity.
+Qed.
+
+(* ================================================================================================ *)
+Print Assumptions exact_layout.
+Print Assumptions unpack_block_wire.
+Print Assumptions XR_unmarshal_alloc.
+Print Assumptions nb_layout.
+Print Assumptions XR_unmarshal_nodes.
+Print Assumptions decode_frame_alloc_sharp.
+Print Assumptions decode_frame_alloc.
+Print Assumptions decode_frame_alloc_len.
+Print Assumptions Unmarshal_alloc_sharp.
+Print Assumptions Unmarshal_alloc.
+Print Assumptions Unmarshal_alloc_linear.
+Print Assumptions dest_q.
+Print Assumptions dest_roundtrip.
+Print Assumptions dest_roundtrip_datagram.
+Print Assumptions XR_dest_roundtrip.
+Print Assumptions xrchunk_obs_accessors.
+Print Assumptions chunk_chk_ok.
+Print Assumptions chunk_null_iff.
+Print Assumptions chunk_null.
+Print Assumptions chunk_type_bit15.
+Print Assumptions chunk_run_length.
+Print Assumptions chunk_bit_vector.
+Print Assumptions chunk_accessors_injective.
+Print Assumptions PLI_framing_any_value.
+Print Assumptions RRR_framing_any_value.
+Print Assumptions NACK_framing_any_value.
+Print Assumptions SLI_framing_any_value.
+Print Assumptions FIR_framing_any_value.
+Print Assumptions feedback_framing_any_value.
+Print Assumptions FIR_length_wraps.
